@@ -752,10 +752,14 @@ def _aten_argmax(self: Union[RealType, UINT8], keepdim: bool = False) -> INT64:
     """argmax(Tensor self, int? dim=None, bool keepdim=False) -> Tensor"""
 
     self_is_scaler = len(self.shape) == 0
+    rank = len(self.shape)
     self = op.Reshape(self, op.Constant(value_ints=[-1]))
     result = op.ArgMax(self, keepdims=keepdim)
     if self_is_scaler:
         result = op.Squeeze(result)
+    elif keepdim and rank > 1:
+        # PyTorch keeps every dimension with extent 1
+        result = op.Reshape(result, op.Constant(value_ints=[1] * rank))
 
     return result
 
@@ -791,10 +795,14 @@ def _aten_argmin(self: Union[RealType, UINT8], keepdim: bool = False) -> INT64:
     """argmin(Tensor self, int? dim=None, bool keepdim=False) -> Tensor"""
 
     self_is_scaler = len(self.shape) == 0
+    rank = len(self.shape)
     self = op.Reshape(self, op.Constant(value_ints=[-1]))
     result = op.ArgMin(self, keepdims=keepdim)
     if self_is_scaler:
         result = op.Squeeze(result)
+    elif keepdim and rank > 1:
+        # PyTorch keeps every dimension with extent 1
+        result = op.Reshape(result, op.Constant(value_ints=[1] * rank))
 
     return result
 
